@@ -160,89 +160,116 @@ def _arms(t):
     return [t]
 
 
+HOUR, DEGU, RADU = 'hourangle', 'deg', 'rad'
+SKY_PROBES = [
+    # (token, frame keyword, parameter index) -> ('str', text handed to Angle, unit) | ('num', degrees) | 'raises'
+    (('10:30:00', 'fk5', 0), ('str', '10:30:00', HOUR), 'a:b:c longitude in an equatorial frame is hours'),
+    (('10:30:00', 'icrs', 2), ('str', '10:30:00', HOUR), 'every even parameter index is a longitude'),
+    (('10:30:00', 'j2000', 0), ('str', '10:30:00', HOUR), 'j2000 is an equatorial frame keyword'),
+    (('10:30:00', 'b1950', 0), ('str', '10:30:00', HOUR), 'b1950 is an equatorial frame keyword'),
+    (('10:30:00', 'fk4', 0), ('str', '10:30:00', HOUR), 'fk4'),
+    (('10:30:00', 'fk5', 1), ('str', '10:30:00', DEGU), 'a:b:c latitude is degrees'),
+    (('10:30:00', 'galactic', 0), ('str', '10:30:00', DEGU), 'galactic longitudes are degrees'),
+    (('10:30:00', 'ecliptic', 0), ('str', '10:30:00', DEGU), 'ecliptic longitudes are degrees'),
+    (('12.5', 'fk5', 0), ('num', 12.5), 'bare numbers are degrees'),
+    (('12.5', 'galactic', 1), ('num', 12.5), 'bare numbers are degrees'),
+    (('12.5d', 'fk5', 0), ('str', '12.5', DEGU), 'd suffix'),
+    (('1.5r', 'icrs', 1), ('str', '1.5', RADU), 'r suffix'),
+    (('10h30m00s', 'fk5', 0), ('str', '10h30m00s', None), 'hms notation carries its unit'),
+    (('+20d30m00s', 'fk5', 1), ('str', '+20d30m00s', None), 'dms notation carries its unit'),
+    (('12.5p', 'fk5', 0), 'raises', 'physical units are not sky coordinates'),
+    (('12.5i', 'fk5', 0), 'raises', 'image units are not sky coordinates'),
+]
+PIXEL_PROBES = [('5', 4.0), ('5.5', 4.5), ('5i', 4.0), ('1e2', 99.0), ('-3', -4.0)]
+SIZE_PROBES = [(('pixel', '3'), 3.0), (('pixel', '3.5i'), 3.5), (('pixel', '3"'), 'raises'), (('pixel', '3d'), 'raises'),
+               (('sky', '3"'), (3.0, 'arcsec')), (('sky', '3'), (3.0, 'deg'))]
+UNIT_RAD = {'deg': sp.pi / 180, 'arcmin': sp.pi / 10800, 'arcsec': sp.pi / 648000, 'rad': sp.Integer(1), 'hourangle': sp.pi / 12}
+
+
+def _outcome(out):
+    if out.raises and not out.returns:
+        return 'raises'
+    if len(out.returns) == 1 and not out.raises:
+        return out.returns[0][1]
+    return f'{len(out.returns)} outcomes, {len(out.raises)} raises'
+
+
+def _angle_norm(t):
+    """('str', text, unit name | None) for Angle('<text>'[, unit]); ('num', degrees) for a numeric angle."""
+    if is_num(t) and (t / ANG).is_number:
+        return ('num', float((t / ANG * 180 / sp.pi).evalf()))
+    if isinstance(t, App) and t.name.endswith('Angle') and t.args and isinstance(t.args[0], Const):
+        unit = None
+        for a in t.args[1:]:
+            u_ = a.items[1] if isinstance(a, Tup) and len(a.items) == 2 and isinstance(a.items[0], Const) else a
+            if is_num(u_):
+                for nm, val in UNIT_RAD.items():
+                    if sp.simplify(u_ / ANG - val) == 0:
+                        unit = nm
+        return ('str', t.args[0].v, unit)
+    if isinstance(t, App) and t.name.endswith('Angle') and t.args and is_num(t.args[0]):
+        for a in t.args[1:]:
+            u_ = a.items[1] if isinstance(a, Tup) and len(a.items) == 2 else a
+            if is_num(u_) and t.args[0].is_number:
+                return ('num', float((t.args[0] * u_ / ANG * 180 / sp.pi).evalf()))
+    return ('?', show(t, 120))
+
+
 def r3(ctx):
+    """the coordinate and size lexers on probe tokens (one per branch of their dispatch)."""
     m = ctx.model
     par, make, lexers, raw, mod = ds9.reader_funcs(m)
-    ev = Evaluator(m)
-    tok = Obj('tok', {}, 's')
-    # pixel coordinate: float(s) - 1, optional trailing i
+    # pixel coordinates: 1-based -> 0-based, optional trailing i
     f = lexers.get('_parse_pixel_coord')
     ctx.need(f is not None, 'ds9 read', 'pixel coordinate lexer missing')
-    t = ev.call(f, [tok], {})
-    txt = show(t, 600)
-    good = isinstance(t, App) and t.name == 'binop:Sub' and t.args[1] == 1 and isinstance(t.args[0], App) \
-        and t.args[0].name.endswith('float') and len(t.args[0].args) == 1
-    strip_i = "== 'i')" in txt and 'slice_of(s, None, -1, None)' in txt
-    if good and strip_i:
-        ctx.ok(f.qualname.split(':')[1], 'float(token) − 1, trailing "i" stripped')
+    bad = []
+    for tok, want in PIXEL_PROBES:
+        got = _outcome(Evaluator(m).run(f, [Const(tok)], {}))
+        if not (is_num(got) and got.is_number and abs(float(got) - want) < 1e-12):
+            bad.append((tok, got if isinstance(got, str) else show(got, 80), want))
+    if bad:
+        ctx.bad(f.qualname.split(':')[1], 'origin-shift', f'pixel coordinate token {bad[0][0]!r} is lexed as {bad[0][1]}; DS9 is '
+                f'1-based: must be {bad[0][2]} (trailing i allowed)', f.loc())
     else:
-        ctx.bad(f.qualname.split(':')[1], 'origin-shift',
-                f'pixel coordinate lexer returns {show(t, 200)}; DS9 is 1-based: must be float(token) − 1 (trailing i allowed)',
-                f.loc())
-    # size
+        ctx.ok(f.qualname.split(':')[1], f'{len(PIXEL_PROBES)} probe tokens: float(token) − 1, trailing "i" stripped')
+    # sizes
     f = lexers.get('_parse_size')
-    t = ev.call(f, [Const('pixel'), tok], {})
-    arms = _arms(t)
-    if all(isinstance(a, App) and a.name.endswith('float') for a in arms):
-        ctx.ok(f.qualname.split(':')[1] + ':pixel', 'float(token), unshifted')
+    ctx.need(f is not None, 'ds9 read', 'size lexer missing')
+    bad = []
+    for (rt, tok), want in SIZE_PROBES:
+        got = _outcome(Evaluator(m).run(f, [Const(rt), Const(tok)], {}))
+        if want == 'raises':
+            ok = got == 'raises'
+        elif isinstance(want, tuple):
+            ok = is_num(got) and abs(float((got / ANG - want[0] * UNIT_RAD[want[1]]).evalf())) < 1e-12
+        else:
+            ok = is_num(got) and got.is_number and abs(float(got) - want) < 1e-12
+        if not ok:
+            bad.append((rt, tok, got if isinstance(got, str) else show(got, 80), want))
+    if bad:
+        ctx.bad(f.qualname.split(':')[1], 'size-lexing', f'{bad[0][0]} size token {bad[0][1]!r} is lexed as {bad[0][2]}; expected '
+                f'{bad[0][3]} (pixel sizes are plain unshifted numbers and reject angular units; sky sizes are angles)', f.loc())
     else:
-        ctx.bad(f.qualname.split(':')[1], 'size-shift', f'pixel size lexer returns {show(t, 200)}; sizes are not shifted', f.loc())
-    ev2 = Evaluator(m, opaque_funcs={lexers['_parse_angle'].qualname})
-    t = ev2.call(f, [Const('sky'), tok], {})
-    if isinstance(t, App) and t.name == 'call:_parse_angle':
-        ctx.ok(f.qualname.split(':')[1] + ':sky', 'angular sizes go through the angle lexer')
-    else:
-        ctx.bad(f.qualname.split(':')[1], 'sky-size', f'sky size lexer returns {show(t, 160)}', f.loc())
-    # angle suffix table
-    f = lexers['_parse_angle']
-    table = None
-    for st in stmts_of(f.node):
-        if isinstance(st, ast.Assign) and isinstance(st.value, ast.Dict):
-            table = {ast.literal_eval(k): norm(v).split('.')[-1] for k, v in zip(st.value.keys, st.value.values)}
-    want = {'"': 'arcsec', "'": 'arcmin', 'd': 'deg', 'r': 'rad'}
-    norm_tab = {k: {'degree': 'deg', 'radian': 'rad'}.get(v, v) for k, v in (table or {}).items()}
-    t = ev.call(f, [tok], {})
-    bare = [a for a in _arms(t) if isinstance(a, App) and 'Quantity' in a.name]
-    bare_ok = any("['unit', pi*ANG/180]" in show(a, 300) or 'pi*ANG/180' in show(a, 300) for a in bare)
-    if norm_tab == want and bare_ok:
-        ctx.ok(f.qualname.split(':')[1], 'suffixes " \' d r -> arcsec arcmin deg rad; bare number -> degrees')
-    else:
-        ctx.bad(f.qualname.split(':')[1], 'angle-units',
-                f'angle/size suffix table is {norm_tab} (bare->deg: {bare_ok}); DS9: {want}, bare = degrees', f.loc())
+        ctx.ok(f.qualname.split(':')[1] + ':pixel', 'pixel sizes: float(token), unshifted, angular units rejected')
+        ctx.ok(f.qualname.split(':')[1] + ':sky', 'sky sizes go through the angle lexer')
+    # angle suffix table: covered token by token in R3b; keep the instance for the count
+    ctx.ok('_parse_angle', 'see R3b')
     # sky coordinates
     f = lexers['_parse_sky_coord']
-    idx = sp.Symbol('index', integer=True)
-    frame = Obj('str', {}, 'frame')
-    out = ev.run(f, [tok, frame, idx], {})
-    probs = []
-    rets = [(show(ev.conj(pc), 900), show(v, 300)) for pc, v in out.returns]
-    hour = [(c, v) for c, v in rets if 'pi*ANG/12' in v]
-    even = "(Mod(index, 2) == 0)"
-    if len(hour) != 1:
-        probs.append(f'{len(hour)} hour-angle exits (expected one)')
+    bad = []
+    for (tok, frame, idx), want, why in SKY_PROBES:
+        got = _outcome(Evaluator(m).run(f, [Const(tok), Const(frame), sp.Integer(idx)], {}))
+        g = 'raises' if got == 'raises' else (_angle_norm(got) if not isinstance(got, str) else ('?', got))
+        ok = g == want or (isinstance(want, tuple) and want[0] == 'num' and g[0] == 'num' and abs(g[1] - want[1]) < 1e-9)
+        if not ok:
+            bad.append((tok, frame, idx, g, want, why))
+    if bad:
+        tok, frame, idx, g, want, why = bad[0]
+        ctx.bad(f.qualname.split(':')[1], 'sky-coordinates',
+                f'coordinate token {tok!r} (frame {frame}, parameter {idx}) is lexed as {g}; DS9: {why} -> {want} '
+                f'({len(bad)} of {len(SKY_PROBES)} probes differ)', f.loc())
     else:
-        c = hour[0][0]
-        if not ("(':' in s)" in c and even in c and "(frame notin ['galactic', 'ecliptic'])" in c and 'not ' + even not in c):
-            probs.append(f'a:b:c is read as hours under `{c}`; expected: ":" present, even parameter index, frame not in '
-                         '(galactic, ecliptic)')
-        # the complementary ":" exit is degrees
-        comp = [(c2, v2) for c2, v2 in rets if "(':' in s)" in c2 and 'pi*ANG/12' not in v2 and 'pi*ANG/180' in v2
-                and 'not ((Mod(index, 2) == 0) and' in c2]
-        if not comp:
-            probs.append('the other sexagesimal coordinates are not read as degrees')
-    rs = [v for c, v in rets if "(getitem(s, -1) == 'r')" in c and "not (getitem(s, -1) == 'r')" not in c]
-    ds_ = [v for c, v in rets if "(getitem(s, -1) == 'd')" in c and "not (getitem(s, -1) == 'd')" not in c]
-    if not (rs and all("['unit', ANG]" in v for v in rs)):
-        probs.append('the "r" suffix is not read as radians')
-    if not (ds_ and all("pi*ANG/180" in v for v in ds_)):
-        probs.append('the "d" suffix is not read as degrees')
-    bare = [v for c, v in rets if "not (':' in s)" in c]
-    if not (bare and all('pi*ANG/180' in v and 'float(s)' in v for v in bare)):
-        probs.append('bare numbers are not read as degrees')
-    if probs:
-        ctx.bad(f.qualname.split(':')[1], 'sky-coordinates', '; '.join(probs), f.loc())
-    else:
-        ctx.ok(f.qualname.split(':')[1], 'r/d suffixes; ":" is hours iff even index and equatorial-like frame')
+        ctx.ok(f.qualname.split(':')[1], f'{len(SKY_PROBES)} probes: r/d suffixes, hms/dms, ":" is hours iff even index and equatorial frame')
 
 
 SHAPE_CASES = [('point', 2), ('text', 2), ('circle', 3), ('line', 4), ('polygon', 6), ('ellipse', 5), ('box', 5),
@@ -530,9 +557,10 @@ def r7(ctx):
     f = rmod.functions.get('_parse_shape_line')
     ctx.need(f is not None and raw is not None, 'ds9 read', 'shape-line splitter not found')
     pat = None
-    for c in calls_in(raw.node):
+    mod_tree = ctx.src.parse(raw.path)
+    for c in list(calls_in(raw.node)) + [n for n in ast.walk(mod_tree) if isinstance(n, ast.Call)]:
         if (call_name(c) or '') in ('re.compile', 'compile') and c.args and isinstance(c.args[0], ast.Constant) \
-                and 'a-zA-Z' in str(c.args[0].value):
+                and 'a-zA-Z' in str(c.args[0].value) and pat is None:
             pat = c.args[0].value
     ctx.need(pat is not None, raw.qualname, 'frame-or-shape pattern not found')
     rx = _re.compile(pat)
@@ -557,14 +585,96 @@ def r7(ctx):
         ctx.ok(name, f'{len(SHAPE_LINE_PROBES)} probe lines split into (parameters, metadata) as DS9 defines')
 
 
+DS9_UNSUPPORTED_FRAMES = ['physical', 'linear', 'amplifier', 'detector', 'tile', 'wcs', 'wcs0'] + \
+    [f'wcs{c}' for c in 'abcdefghijklmnopqrstuvwxyz']
+DS9_UNSUPPORTED_SHAPES = ['vector', 'ruler', 'compass', 'projection', 'panda', 'epanda', 'bpanda']
+
+
+def _doc_cases():
+    """(name, document, expected records) — a record is (frame, region type, shape, parameter string, raw metadata)."""
+    I1 = {'include': 1}
+    cases = [
+        ('frame persists', 'fk5\ncircle(1,2,3)\nbox(1,2,3,4,0)',
+         [('fk5', 'sky', 'circle', '1,2,3', I1), ('fk5', 'sky', 'box', '1,2,3,4,0', I1)]),
+        ('no frame, no region', 'circle(1,2,3)\nbox(1,2,3,4,0)', []),
+        ('frame changes', 'image\ncircle(1,2,3)\ngalactic\ncircle(4,5,6)',
+         [('image', 'pixel', 'circle', '1,2,3', I1), ('galactic', 'sky', 'circle', '4,5,6', I1)]),
+        ('sign and include', 'image\n-circle(1,2,3)\n+circle(1,2,3)\ncircle(1,2,3)\n-circle(1,2,3) # include=1\ncircle(1,2,3) # include=0',
+         [('image', 'pixel', 'circle', '1,2,3', {'include': 0}), ('image', 'pixel', 'circle', '1,2,3', I1),
+          ('image', 'pixel', 'circle', '1,2,3', I1), ('image', 'pixel', 'circle', '1,2,3', I1),
+          ('image', 'pixel', 'circle', '1,2,3', {'include': 0})]),
+        ('global then own metadata', 'global color=red width=2\nimage\ncircle(1,2,3) # color=blue\ncircle(4,5,6)\nglobal width=3\ncircle(7,8,9)',
+         [('image', 'pixel', 'circle', '1,2,3', {'color': 'blue', 'width': 2, 'include': 1}),
+          ('image', 'pixel', 'circle', '4,5,6', {'color': 'red', 'width': 2, 'include': 1}),
+          ('image', 'pixel', 'circle', '7,8,9', {'color': 'red', 'width': 3, 'include': 1})]),
+        ('composite metadata', 'image\ncomposite(1,2,0) || composite=1 color=red\ncircle(1,2,3) ||\nbox(1,2,3,4,0)\ncircle(7,8,9)',
+         [('image', 'pixel', 'circle', '1,2,3', {'color': 'red', 'include': 1}),
+          ('image', 'pixel', 'box', '1,2,3,4,0', {'color': 'red', 'include': 1}), ('image', 'pixel', 'circle', '7,8,9', I1)]),
+        ('case, semicolons, comments', '# comment\nIMAGE;CIRCLE(1,2,3);circle 4 5 6 # text={a;b}\n\n# text(1,2) text={hi}',
+         [('image', 'pixel', 'circle', '1,2,3', I1), ('image', 'pixel', 'circle', '4 5 6', {'include': 1, 'text': 'a;b'}),
+          ('image', 'pixel', 'text', '1,2', {'include': 1, 'text': 'hi'})]),
+        ('frame aliases', 'J2000; circle 10:00:00 +20:00:00 3"\nb1950\ncircle(1,2,3)',
+         [('j2000', 'sky', 'circle', '10:00:00 +20:00:00 3"', I1), ('b1950', 'sky', 'circle', '1,2,3', I1)]),
+    ]
+    for kw in DS9_UNSUPPORTED_FRAMES:
+        cases.append((f'unsupported frame {kw} clears the frame', f'fk5\ncircle(1,2,3)\n{kw}\ncircle(4,5,6)\nimage\ncircle(7,8,9)',
+                      [('fk5', 'sky', 'circle', '1,2,3', I1), ('image', 'pixel', 'circle', '7,8,9', I1)]))
+    for kw in DS9_UNSUPPORTED_SHAPES:
+        cases.append((f'unsupported shape {kw} is skipped', f'fk5\ncircle(1,2,3)\n{kw}(1,2,3,4)\ncircle(4,5,6)',
+                      [('fk5', 'sky', 'circle', '1,2,3', I1), ('fk5', 'sky', 'circle', '4,5,6', I1)]))
+    return cases
+
+
+def r8(ctx):
+    """the raw DS9 parser, partially evaluated on probe documents: frame state, frame requirement, keyword partition,
+    include sign, metadata precedence, composite state, tokenisation."""
+    m = ctx.model
+    par, make, lexers, raw, rmod = ds9.reader_funcs(m)
+    ctx.need(raw is not None, 'ds9 read', 'raw parser not found')
+    name = raw.qualname.split(':')[1]
+
+    def plain(v):
+        if isinstance(v, Const):
+            return v.v
+        if is_num(v) and v.is_number:
+            return int(v) if float(v) == int(float(v)) else float(v)
+        if isinstance(v, Tup):
+            return [plain(i) for i in v.items]
+        return show(v, 80)
+    nbad = 0
+    for cname, doc, want in _doc_cases():
+        out = Evaluator(m).run(raw, [Const(doc)], {})
+        got = None
+        if len(out.returns) == 1 and isinstance(out.returns[0][1], Tup) and not out.raises:
+            got = []
+            for r in out.returns[0][1].items:
+                if not isinstance(r, Obj):
+                    got = None
+                    break
+                md = r.fields.get('raw_meta')
+                mdd = {k: plain(md.get(k)) for k in md.keys()} if isinstance(md, DictV) and not md.has_symbolic() else show(md, 120)
+                got.append((plain(r.fields.get('frame')), plain(r.fields.get('region_type')), plain(r.fields.get('shape')),
+                            plain(r.fields.get('shape_params')), mdd))
+        if got is None or any(isinstance(x, str) and ('Unknown(' in x or '(' in x and x.split('(')[0] in (
+                'ite', 'apply', 'call', 'getitem', 'lookup')) for rec in got for x in list(rec[:4]) + (
+                list(rec[4].values()) if isinstance(rec[4], dict) else [rec[4]]) if isinstance(x, str)):
+            # the evaluator could not reduce the parser on this constant document: undecided, not a violation
+            raise AnalysisError('C10.R8', f'{name}: {cname}',
+                                'raw parser not reducible on a constant document: ' +
+                                (show(out.returns[0][1], 200) if out.returns else f'raises {[n for _, n, _ in out.raises]}'))
+        if got == want:
+            ctx.ok(f'{name}: {cname}', f'{len(want)} record(s) as DS9 defines')
+        else:
+            nbad += 1
+            shown = got if got is not None else f'{len(out.returns)} outcomes, raises {[n for _, n, _ in out.raises]}'
+            ctx.bad(name, f'document:{cname}', f'`{doc}` is parsed into {shown}; DS9 defines {want}', raw.loc())
+
+
 RULES = [
     RuleDef('R7', 'shape line -> (parameter string, metadata string) on probe lines', r7, 1),
-    RuleDef('R1', 'no region without a frame; frame state persistence', r1, 2),
-    RuleDef('R1b', 'unsupported frame keywords all clear the active frame (keyword partition)', r1b, 3),
-    RuleDef('R2', 'metadata precedence; sign-derived include', r2, 2),
+    RuleDef('R8', 'raw parser on probe documents: frame state/requirement, keyword partition, include, metadata, composite', r8, 40),
     RuleDef('R3', 'coordinate / size / angle lexing constants', r3, 5),
     RuleDef('R3b', 'angle/size lexer probes (one per branch and per number ending)', r3b, 1),
     RuleDef('R4', 'parameter templates per shape (symbolic parse), annulus expansion, frame names', r4, 27),
-    RuleDef('R5', 'composite metadata state', r5, 2),
     RuleDef('R6', 'text in {} "" \'\' is kept verbatim (lexer partially evaluated on delimiter probes); ";" protected in free text', r6, 5),
 ]
